@@ -1,5 +1,5 @@
 (* C05 — a nested graph behaves like its nodes inlined. *)
-From HG Require Import Base Rename RenameProofs Engine Exec Nested NestedProofs Samples.
+From HG Require Import Base Rename RenameProofs Engine Exec EngineProofs C01Proofs Nested NestedProofs Inline InlineRuns InlineExample Samples.
 From stdpp Require Import gmap.
 
 (* What running a nested graph as a node is (every depth, both runners): inputs translated to the
@@ -49,6 +49,100 @@ Theorem C05_leaves_unchanged : forall d r ft gt subs n st ins,
   n_kind n = KFunc -> exec_ng d r ft gt subs n st ins = exec_basic ft gt n st ins.
 Proof. exact exec_ng_leaf. Qed.
 Print Assumptions C05_leaves_unchanged.
+
+(* INLINING, on the dataflow equations (C01's Sol).  `go` contains a wrapper node w whose function is "the solution of the
+   inner system gi"; gf is go with w replaced by the nodes of gi, each node keeping its own function (exec_f).  Whenever the
+   wrapper's inputs are present, every solution of the nested system is a solution of the flat system ... *)
+Theorem C05_inlining_equations : forall (exec_i exec_o : node -> state -> dict val -> outcome) (gi go : graph) (w : node) (pv : dict val),
+  In w (g_nodes go) -> List.NoDup (map n_name (g_nodes go)) ->
+  (forall n, In n (g_nodes go) -> inner gi n = false) ->
+  (forall o, In o (n_outputs w) <-> In o (inner_outputs gi)) ->
+  (forall n p, In n (g_nodes gi) -> In p (n_inputs n) -> In p (inner_outputs gi) \/ In p (n_inputs w)) ->
+  (forall ins outs, map fst ins = n_inputs w -> exec_o w empty_state ins = OOk outs None ->
+     exists Vi, Sol exec_i gi ins Vi /\ Reads w Vi outs) ->
+  forall V, Sol exec_o go pv V -> (forall p, In p (n_inputs w) -> exists v, V !! p = Some v) ->
+  Sol (exec_f exec_i exec_o gi) (gf gi go w) pv V.
+Proof. exact inline_nested_to_flat. Qed.
+Print Assumptions C05_inlining_equations.
+
+(* ... and conversely (inner graph acyclic, inner functions returning their declared outputs) ... *)
+Theorem C05_inlining_converse : forall (exec_i exec_o : node -> state -> dict val -> outcome) (gi go : graph) (w : node) (pv : dict val),
+  In w (g_nodes go) -> List.NoDup (map n_name (g_nodes go)) ->
+  (forall n, In n (g_nodes go) -> inner gi n = false) ->
+  (forall o, In o (n_outputs w) <-> In o (inner_outputs gi)) ->
+  (forall n p, In n (g_nodes gi) -> In p (n_inputs n) -> In p (inner_outputs gi) \/ In p (n_inputs w)) ->
+  (forall ins Vi, Sol exec_i gi ins Vi -> (forall o, In o (n_outputs w) -> exists v, Vi !! o = Some v) ->
+     exec_o w empty_state ins = OOk (reads_of w Vi) None) ->
+  (exists rank : name -> nat, forall n m p, In n (g_nodes gi) -> In m (g_nodes gi) -> In p (n_inputs n) -> In p (n_outputs m) ->
+     rank (n_name m) < rank (n_name n)) ->
+  (forall n s ins outs dec, In n (g_nodes gi) -> map fst ins = n_inputs n -> exec_i n s ins = OOk outs dec ->
+     map fst outs = n_outputs n) ->
+  forall V, Sol (exec_f exec_i exec_o gi) (gf gi go w) pv V -> (forall p, In p (n_inputs w) -> exists v, V !! p = Some v) ->
+  Sol exec_o go pv V.
+Proof. exact inline_flat_to_nested. Qed.
+Print Assumptions C05_inlining_converse.
+
+(* ... so, the flat system having exactly one solution (C01_unique), the nested values ARE the flat values. *)
+Theorem C05_inlining_values : forall (exec_i exec_o : node -> state -> dict val -> outcome) (gi go : graph) (w : node) (pv : dict val),
+  In w (g_nodes go) -> List.NoDup (map n_name (g_nodes go)) ->
+  (forall n, In n (g_nodes go) -> inner gi n = false) ->
+  (forall o, In o (n_outputs w) <-> In o (inner_outputs gi)) ->
+  (forall n p, In n (g_nodes gi) -> In p (n_inputs n) -> In p (inner_outputs gi) \/ In p (n_inputs w)) ->
+  forall Vn Vf, WF (exec_f exec_i exec_o gi) (gf gi go w) pv ->
+  (forall ins outs, map fst ins = n_inputs w -> exec_o w empty_state ins = OOk outs None ->
+     exists Vi, Sol exec_i gi ins Vi /\ Reads w Vi outs) ->
+  Sol exec_o go pv Vn -> (forall p, In p (n_inputs w) -> exists v, Vn !! p = Some v) ->
+  Sol (exec_f exec_i exec_o gi) (gf gi go w) pv Vf -> Vn = Vf.
+Proof. exact nested_equals_flat. Qed.
+Print Assumptions C05_inlining_values.
+
+(* INLINING, on runs of the engine model.  The wrapper is the GraphNode executor of Nested.v (exec_ng) around an acyclic
+   gate-free inner graph, without renames (their effect at the boundary: C05_boundary_inputs / _outputs), not mapped, exposing
+   every inner output.  A COMPLETED nested run and a COMPLETED run of the flat graph - either runner for each of the outer,
+   the inner and the flat run, any budgets, any node orders - return the same values. *)
+Theorem C05_inlining_runs : forall d r ft gt subs gi ieps ift igt isubs w,
+  n_kind w = KGraph ->
+  dget subs (n_name w) = Some (NSub (inner_ng gi ieps ift igt isubs) [] [] (n_outputs w) None) ->
+  emit_only d (inner_ng gi ieps ift igt isubs) = [] ->
+  (forall o, In o (n_outputs w) <-> In o (all_outputs gi)) ->
+  (forall n p, In n (g_nodes gi) -> In p (n_inputs n) -> In p (all_outputs gi) \/ In p (n_inputs w)) ->
+  List.NoDup (n_inputs w) ->
+  (forall ins, map fst ins = n_inputs w -> WF (exec_i d r ift igt isubs) gi ins) ->
+  (forall n s ins outs dec o, In n (g_nodes gi) -> exec_i d r ift igt isubs n s ins = OOk outs dec -> ~ In (o, VSentinel) outs) ->
+  forall go pv, In w (g_nodes go) -> (forall n, In n (g_nodes go) -> inner gi n = false) ->
+  forall r1 r2 f1 f2 sn sf l1 l2,
+  WF (exec_o d r ft gt subs) go pv ->
+  WF (flat_exec d r ft gt subs gi ift igt isubs) (flat_graph gi w go) pv ->
+  List.NoDup (dkeys pv) ->
+  execute (exec_o d r ft gt subs) r1 f1 go pv = (RDone sn, l1) ->
+  execute (flat_exec d r ft gt subs gi ift igt isubs) r2 f2 (flat_graph gi w go) pv = (RDone sf, l2) ->
+  (forall p, In p (n_inputs w) -> exists v, vals sn !! p = Some v) ->
+  vals sn = vals sf.
+Proof. exact inline_runs. Qed.
+Print Assumptions C05_inlining_runs.
+
+(* the flat graph's leaves are executed with the function tables of the graphs they came from *)
+Theorem C05_flat_leaves : forall d r ft gt subs gi ift igt isubs n st ins, n_kind n = KFunc ->
+  flat_exec d r ft gt subs gi ift igt isubs n st ins =
+  if inner gi n then exec_basic ift igt n st ins else exec_basic ft gt n st ins.
+Proof. exact flat_exec_leaf. Qed.
+Print Assumptions C05_flat_leaves.
+
+(* Non-vacuity of C05_inlining_runs: every hypothesis holds of the diamond DAG A -> {B, C} -> D with {B, C} wrapped
+   (InlineExample.v), so there the theorem reads: *)
+Theorem C05_inlining_example : forall r1 r2 f1 f2 sn sf l1 l2,
+  execute ex_exec_o r1 f1 ex_go ex_pv = (RDone sn, l1) ->
+  execute ex_flat_exec r2 f2 ex_flat ex_pv = (RDone sf, l2) ->
+  vals sn = vals sf.
+Proof. exact ex_inline_runs. Qed.
+Print Assumptions C05_inlining_example.
+
+Example C05_inlining_example_completes :
+  (exists sn l, execute ex_exec_o Sync 10 ex_go ex_pv = (RDone sn, l)) /\
+  (exists sn l, execute ex_exec_o Async 10 ex_go ex_pv = (RDone sn, l)) /\
+  (exists sf l, execute ex_flat_exec Sync 10 ex_flat ex_pv = (RDone sf, l)) /\
+  (exists sf l, execute ex_flat_exec Async 10 ex_flat ex_pv = (RDone sf, l)).
+Proof. exact ex_runs_complete. Qed.
 
 (* Non-vacuity / inlining on a concrete program: the diamond DAG with {B, C} wrapped into a nested
    graph (wrapper input renamed) returns the values of the flat graph. *)
